@@ -83,8 +83,8 @@ func buildPool() *leafPool {
 
 // structural yields the mutations of one captured value. perClass bounds the number of sites used
 // per class (0 = all). rng selects sites when bounded.
-func structural(c *capture, perClass int, rng *rand.Rand, pool *leafPool, others []*capture, sem bool) []mutation {
-	var out []mutation
+// Mutations are streamed to sink; want(cls) is asked before a mutated encoding is built (budgets).
+func structural(c *capture, perClass int, rng *rand.Rand, pool *leafPool, others []*capture, want func(cls string) bool, sink func(m mutation)) {
 	root := c.tree
 	ss := sites(root)
 	pick := func(idxs []int) []int {
@@ -111,7 +111,10 @@ func structural(c *capture, perClass int, rng *rand.Rand, pool *leafPool, others
 		return pick(idxs)
 	}
 	emit := func(cls, variant string, ord int, f func(s site, root *node) *node) {
-		out = append(out, mutation{cls: cls, variant: variant, path: ss[ord].path, kind: kindOf(ss[ord].n), data: mutateAt(root, ord, f)})
+		if !want(cls) {
+			return
+		}
+		sink(mutation{cls: cls, variant: variant, path: ss[ord].path, kind: kindOf(ss[ord].n), data: mutateAt(root, ord, f)})
 	}
 
 	// ---- malformed containers ----
@@ -166,7 +169,9 @@ func structural(c *capture, perClass int, rng *rand.Rand, pool *leafPool, others
 		v string
 		b []byte
 	}{{"zero", []byte{0}}, {"null", []byte{0xf6}}, {"break", []byte{0xff}}, {"self", c.enc}, {"emptymap", []byte{0xa0}}} {
-		out = append(out, mutation{cls: "trailing", variant: t.v, path: "", kind: kindOf(root), data: append(append([]byte(nil), c.enc...), t.b...)})
+		if want("trailing") {
+			sink(mutation{cls: "trailing", variant: t.v, path: "", kind: kindOf(root), data: append(append([]byte(nil), c.enc...), t.b...)})
+		}
 	}
 	for _, i := range sel(func(s site) bool { return s.n.mt == mtBytes && !s.isKey }) {
 		emit("bignum", "tag2", i, func(s site, r *node) *node {
@@ -179,9 +184,6 @@ func structural(c *capture, perClass int, rng *rand.Rand, pool *leafPool, others
 	for _, i := range sel(func(s site) bool { return s.n.mt == mtTag }) {
 		emit("tagdrop", "", i, func(s site, r *node) *node { return replace(s, r, s.n.kids[0]) })
 		emit("tagswap", "", i, func(s site, r *node) *node { s.n.arg = unknownTag; return r })
-	}
-	if !sem {
-		return out
 	}
 
 	// ---- structure-preserving changes of content: accepted or rejected, never invalid ----
@@ -360,7 +362,6 @@ func structural(c *capture, perClass int, rng *rand.Rand, pool *leafPool, others
 			emit("swap", "peer:"+o.name, i, func(s site, r *node) *node { return replace(s, r, on.clone()) })
 		}
 	}
-	return out
 }
 
 func s2kids(s site) []*node { return s.n.kids }
